@@ -44,7 +44,7 @@ def no_startpoints(rng):
 def generate(rng, tier):
     quick = tier == "quick"
     out = []
-    n = 70 if quick else 110
+    n = 56 if quick else 110
     for i in range(n):
         if i % 12 == 11:
             d, tags = no_startpoints(rng)
@@ -97,16 +97,33 @@ def parse_dimacs(text, variables):
 
 def impl(case):
     import circuitgraph as cg
-    c = lib.build_circuit(case["circuit"])
+    if case["fn"] == "skip":
+        return {}
+    return observe(cg, case["circuit"], case, True)
+
+
+def observe(cg, d, case, follow):
+    c = lib.build_circuit(d)
     obs = {"orders": U.record_orders(c)}
     a = case.get("assume")
     A = None if a is None else {k: v for k, v in a}
     try:
         if case["fn"] == "count":
+            pool = None
+            if follow:
+                try:
+                    _, pool = cg.sat.cnf(c)
+                except Exception:
+                    pool = None
             r = cg.sat.model_count(c, A)
             if not isinstance(r, int) or isinstance(r, bool):
                 raise TypeError("model_count did not return an int")
             obs["count"] = r
+            if pool is not None:
+                # adaptive alias probing (see sat_util.alias_followups): nothing is generated for tuple-keyed auxiliaries
+                fs = [[e, observe(cg, e, case, False)] for e in U.alias_followups(d, pool)]
+                if fs:
+                    obs["followups"] = fs
         elif case["fn"] == "prob":
             r = cg.props.signal_probability(c, case["node"], approx=False)
             fr = Fraction(float(r))
@@ -132,11 +149,18 @@ def impl(case):
     return obs
 
 
+def count_term(case, d, obs):
+    exc = U.cexn(obs["exc"]) if "exc" in obs else None
+    return f"CCount {ccirc(d)} {U.cords(obs['orders'])} {U.cassign(case['assume'] or [])} {exc or '(Ok %s)' % cnat(obs['count'])}"
+
+
 def to_coq(case, obs):
+    if case["fn"] == "skip":
+        return None
     d = case["circuit"]
     exc = U.cexn(obs["exc"]) if "exc" in obs else None
     if case["fn"] == "count":
-        return f"CCount {ccirc(d)} {U.cords(obs['orders'])} {U.cassign(case['assume'] or [])} {exc or '(Ok %s)' % cnat(obs['count'])}"
+        return U.cmany([count_term(case, d, obs)] + [count_term(case, e, o) for e, o in obs.get("followups", [])])
     if case["fn"] == "prob":
         o = exc or "(Ok (%s,%s))" % (cnat(obs["prob"][0]), cnat(obs["prob"][1]))
         return f"CProb {ccirc(d)} {cs(case['node'])} {o}"
@@ -150,7 +174,7 @@ def to_coq(case, obs):
 
 
 def nontrivial(case, obs):
-    return any(n[1] in lib.GATES and n[3] for n in case["circuit"]["nodes"])
+    return case["fn"] != "skip" and any(n[1] in lib.GATES and n[3] for n in case["circuit"]["nodes"])
 
 
 def classify(case, obs):
@@ -174,7 +198,14 @@ def finding_signature(case, obs):
     return None
 
 
+_MUTATE_BUDGET = [60]
+
+
 def mutate_case(rng, case):
+    """budgeted neighbourhood for the widened search (see c01.mutate_case)"""
+    if _MUTATE_BUDGET[0] <= 0:
+        return {"fn": "skip"}
+    _MUTATE_BUDGET[0] -= 1
     d, tags = small_circuit(rng)
     if case["fn"] == "prob":
         return {"fn": "prob", "circuit": d, "node": rng.choice([x[0] for x in d["nodes"]]), "tags": tags}
